@@ -23,7 +23,7 @@ import (
 	"github.com/gorilla/websocket"
 )
 
-const wait = 4 * time.Second
+const wait = 1500 * time.Millisecond
 
 type wsDrv struct {
 	ts     *httptest.Server
